@@ -452,7 +452,7 @@ def r5(ctx, retsets):
 
 def _upper(pdb, fn, e, depth=0):
     """upper bound of an unsigned length expression, or None"""
-    if depth > 6:
+    if depth > 10:
         return None
     if e[0] == "c":
         return e[1]
